@@ -29,6 +29,11 @@ def main():
         info = eg.gen_runs(rng, tmpd, 1, "seq", thorough=thorough, mtype="EXPRESS")[0]
         info.profile = "express"
         infos.append(info)
+    # an execution whose input and output are each within the quota but large together: the three surfaces still carry them in full
+    big = {"StartAt": "S", "States": {"S": {"Type": "Pass", "Result": "b" * 140000, "ResultPath": "$.out", "OutputPath": "$.out", "End": True}}}
+    info = eg.convert(eg.run_many(big, [{"in": "a" * 140000}], cp.Worker(1, failures=0.0), tmpd))
+    info.profile, info.schedule, info.worker_desc = "directed_big", "canonical", {"seed": 1, "failures": 0.0, "hangs": 0.0}
+    infos.append(info)
     shutil.rmtree(tmpd, ignore_errors=True)
 
     def desc(info):
@@ -75,6 +80,8 @@ def main():
     # every notification published
     ncases, ndesc, ex = [], [], []
     for info in infos:
+        if info.profile == "directed_big":
+            continue            # (its 140000-character payloads are compared as interned values by the views above; as Coq literals they would overflow the parser)
         for k, bc in enumerate(info.broadcasts):
             xa = bc["body"].get("detail", {}).get("executionArn")
             current = not any(b2["step"] == bc["step"] and b2["body"].get("detail", {}).get("executionArn") == xa for b2 in info.broadcasts[k + 1:])
